@@ -311,6 +311,47 @@ def check_C01(ctx, deep=False):
     ops = movegen_ops(ctx, 4 if deep else 1)
     run_and_compare(ctx, ops, [lambda c, r: oracle_gen(c, r, "moves") if r["op"] == "gen all" else None,
                                lambda c, r: None])
+    cli_perft(ctx, 40 if ctx.quick else 600)
+
+
+def cli_perft(ctx, n):
+    """black box: the RELEASE binary's own test bench (`walleye -T -d 2 --fen F`: hooks off, release
+    arithmetic) must visit exactly perft(1) + perft(2) positions as counted by the SPEC"""
+    import subprocess
+    if ctx.bs.engine_error:
+        ctx.notes.append("engine binary unavailable for the perft runs")
+        return
+    fens = []
+    for kind, args in (("fenpos", (n,)), ("castle", (97,)), ("chkmoves", (9, "chk"))):
+        for o in C.genops(kind, ctx.seed + 21, *args):
+            if o.startswith("fen ") and len(fens) < 3 * n:
+                fens.append(o[4:])
+    fens = fens[::max(1, len(fens) // n)][:n]
+    ops = []
+    for f in fens:
+        ops += ["fen " + f, "perft 2"]
+    res = C.run_ops(ops)
+    expect = {}
+    for i in range(0, len(res), 2):
+        if res[i + 1]["S"] not in ("-", None):
+            expect[res[i]["op"][4:]] = int(res[i + 1]["S"])
+            if res[i + 1]["M"] != res[i + 1]["S"]:
+                ctx.fail("perft-model-vs-spec", fen=res[i]["op"][4:], model=res[i + 1]["M"], spec=res[i + 1]["S"])
+
+    def one(f):
+        try:
+            p = subprocess.run([C.ENGINE, "--fen=" + f, "-T", "-d", "2"], capture_output=True, text=True, timeout=60)
+        except subprocess.TimeoutExpired:
+            return f, None, "timeout"
+        m = re.search(r"evaluated (\d+) nodes", p.stdout + p.stderr)
+        return f, (int(m.group(1)) if m else None), (p.stdout + p.stderr)[-200:]
+    from concurrent.futures import ThreadPoolExecutor
+    with ThreadPoolExecutor(max_workers=8) as ex:
+        for f, nodes, raw in ex.map(one, list(expect)):
+            ctx.count("cli_perft_runs")
+            ctx.case(("cli-perft", f), True)
+            if nodes != expect[f]:
+                ctx.fail("release-binary-perft", fen=f, depth=2, binary_nodes=nodes, spec_nodes=expect[f], output=raw)
 
 
 def check_C02(ctx, deep=False):
@@ -398,7 +439,7 @@ def check_C06(ctx, deep=False):
 
 
 CHECKS = {
-    "C01": {"fn": check_C01},
+    "C01": {"fn": check_C01, "engine": True},
     "C02": {"fn": check_C02},
     "C04": {"fn": check_C04},
     "C05": {"fn": check_C05},
